@@ -21,7 +21,7 @@ Local Open Scope N_scope.
 
 (* DHist: a Buckets datum as (Count, Sum); the harness observes small integers
    only, so Sum is exact.  The distribution over buckets is C21's subject. *)
-Inductive dval := DInt (z : Z) | DFloat (bits : N) | DHist (count : N) (sum : Z).
+Inductive dval := DInt (z : Z) | DFloat (bits : N) | DHist (count : N) (sum : Z) | DStr (s : bytes).
 (* value and time; the time is 0 (set at compile time with time.Unix(0,0)) or
    the index of the history step that stamped it *)
 Record datum := mkdatum { dv : dval; dt : Z }.
